@@ -6,6 +6,7 @@ import (
 	"errors"
 	"fmt"
 	"os"
+	"strings"
 
 	"github.com/kercylan98/minotaur/toolkit/buffer"
 	"verif/harness/vh"
@@ -187,7 +188,7 @@ func monitor(c *Case) (viol []vh.Violation) {
 }
 
 // shadow cursors (intended arithmetic) to decide non-triviality and report the distribution
-type shape struct{ wraps, grows, bulkWrapped, partialBulk int }
+type shape struct{ wraps, grows, bulkWrapped, partialBulk, bigGrows, bigGrowsWrapped int }
 
 func analyse(c *Case) shape {
 	init := int(c.Init)
@@ -211,6 +212,10 @@ func analyse(c *Case) shape {
 					size *= 2
 				} else {
 					size += size / 4
+					s.bigGrows++
+					if r > 0 {
+						s.bigGrowsWrapped++
+					}
 				}
 				r, w = 0, n
 				s.grows++
@@ -290,19 +295,103 @@ func coqRes(r Res) string {
 	return "OBad" // panic/err: never equal to a model output
 }
 func coqCase(id int, c *Case) string {
-	ops := make([]string, len(c.Ops))
-	for i, o := range c.Ops {
-		ops[i] = coqOp(o)
+	// runs of >= 8 writes of consecutive values that all returned normally are emitted as (writes start n) / (units n)
+	// (RingRun.v): the scripts of the large-capacity family hold thousands of writes
+	var ops, rs []string
+	var po, pr []string
+	flush := func() {
+		if len(po) > 0 {
+			ops, rs = append(ops, vh.List(po)), append(rs, vh.List(pr))
+			po, pr = nil, nil
+		}
 	}
-	rs := make([]string, len(c.Impl))
-	for i, r := range c.Impl {
-		rs[i] = coqRes(r)
+	for i := 0; i < len(c.Ops); {
+		j := i
+		for j < len(c.Ops) && c.Ops[j].K == "W" && c.Impl[j].K == "unit" && c.Ops[j].V == c.Ops[i].V+int64(j-i) {
+			j++
+		}
+		if j-i >= 8 {
+			flush()
+			ops = append(ops, fmt.Sprintf("(writes %s %d)", vh.Z(c.Ops[i].V), j-i))
+			rs = append(rs, fmt.Sprintf("(units %d)", j-i))
+			i = j
+			continue
+		}
+		po, pr = append(po, coqOp(c.Ops[i])), append(pr, coqRes(c.Impl[i]))
+		i++
+	}
+	flush()
+	if len(ops) == 0 {
+		ops, rs = []string{"[]"}, []string{"[]"}
 	}
 	init := c.Init
 	if init == noArg {
 		init = 0
 	}
-	return fmt.Sprintf("{| cid := %d; cinit := %s; cops := %s; cimpl := %s |}", id, vh.Z(init), vh.List(ops), vh.List(rs))
+	return fmt.Sprintf("{| cid := %d; cinit := %s; cops := %s; cimpl := %s |}", id, vh.Z(init),
+		"("+strings.Join(ops, " ++ ")+")", "("+strings.Join(rs, " ++ ")+")")
+}
+
+// genLarge: the +25% growth regime (capacity >= 1024): phases of bulk writes and bulk reads that move the read cursor far into
+// the array, wrap the contents around its end and fill it
+func genLarge(rng *vh.RNG, next *int64) Case {
+	var c Case
+	switch rng.Intn(4) {
+	case 0:
+		c.Init = 1024
+	case 1:
+		c.Init = int64(rng.Range(500, 1100))
+	case 2:
+		c.Init = int64(rng.Range(1024, 1400))
+	default:
+		c.Init = int64(rng.Range(256, 600)) // grows by doubling first
+	}
+	size := int(c.Init)
+	held := 0
+	wn := func(n int) {
+		for k := 0; k < n; k++ {
+			*next++
+			c.Ops = append(c.Ops, Op{K: "W", V: *next})
+		}
+		held += n
+		for held >= size {
+			if size < 1024 {
+				size *= 2
+			} else {
+				size += size / 4
+			}
+		}
+	}
+	rm := func(n int) {
+		c.Ops = append(c.Ops, Op{K: "RM", V: int64(n)})
+		if n > held {
+			n = held
+		}
+		held -= n
+	}
+	phases := rng.Range(4, 9)
+	for p := 0; p < phases && len(c.Ops) < 4200; p++ {
+		switch rng.Intn(10) {
+		case 0, 1, 2, 3: // fill up to (or just beyond) the capacity
+			room := size - held
+			wn(rng.Range(room-3, room+2))
+		case 4, 5:
+			wn(rng.Range(1, size/2))
+		case 6, 7, 8: // move the read cursor
+			if held > 0 {
+				rm(rng.Range(1, held))
+			} else {
+				wn(rng.Range(size/3, size-1))
+			}
+		case 9:
+			c.Ops = append(c.Ops, Op{K: "R"}, Op{K: "L"}, Op{K: "C"})
+			if held > 0 {
+				held--
+			}
+		}
+	}
+	c.Ops = append(c.Ops, Op{K: "L"}, Op{K: "RM", V: int64(rng.Range(1, 900))}, Op{K: "RA"}, Op{K: "L"})
+	return c
 }
 
 func genCase(rng *vh.RNG, next *int64) Case {
@@ -355,6 +444,8 @@ func record(out *vh.Out, c *Case) {
 	v := monitor(c)
 	s := analyse(c)
 	nt := s.partialBulk > 0 || s.grows > 0
+	out.Count("grows_in_the_25_percent_regime", vh.Bucket(s.bigGrows))
+	out.Count("grows_in_the_25_percent_regime_with_wrapped_contents", vh.Bucket(s.bigGrowsWrapped))
 	out.Count("ops_len", vh.Bucket(len(c.Ops)))
 	out.Count("init", fmt.Sprint(c.Init))
 	out.Count("wraps", vh.Bucket(s.wraps))
@@ -383,7 +474,7 @@ func main() {
 		return
 	}
 	out := vh.NewOut(f.Out, "ring", "From MV Require Import Lib.ListX C15.RingModel C15.RingRun.", "case", "mismatches", f.Seed,
-		"random op sequences (len 1..40) over initial capacities {none,-2..1,2..9,10..40}; thorough adds every sequence of length<=5 over {W,R,RM1,RM2,RM3,RA,P,L,X} for capacities 2..4; non-trivial = at least one grow, or a bulk read smaller than the contents issued while the ring is wrapped; distinct by hash of (init, ops)")
+		"random op sequences (len 1..40) over initial capacities {none,-2..1,2..9,10..40}; n/60 scripts of the large-capacity family (initial capacity 256..1400, phases of bulk writes / bulk reads that wrap and fill the array: growth by +25%); thorough adds every sequence of length<=5 over {W,R,RM1,RM2,RM3,RA,P,L,X} for capacities 2..4; non-trivial = at least one grow, or a bulk read smaller than the contents issued while the ring is wrapped; distinct by hash of (init, ops)")
 	rng := vh.NewRNG(f.Seed)
 	var next int64
 	// corpus: minimised historical failures run first
@@ -401,6 +492,13 @@ func main() {
 	for i := 0; i < n; i++ {
 		cr, _ := rng.Derive()
 		c := genCase(cr, &next)
+		record(out, &c)
+	}
+	// large capacities: the +25% growth regime (a few cases: each holds thousands of operations)
+	nl := n / 60
+	for i := 0; i < nl; i++ {
+		cr, _ := rng.Derive()
+		c := genLarge(cr, &next)
 		record(out, &c)
 	}
 	if f.Tier == "thorough" {
